@@ -356,6 +356,46 @@ where
     })
 }
 
+fn blindproofflow<CS: BbsCiphersuite>(a: &Args) -> Result<Option<String>, String>
+where
+    CS::Expander: for<'x> ExpandMsg<'x>,
+{
+    let msgs = get_nested(a, "msgs");
+    let cmsgs = get_nested(a, "cmsgs");
+    let hdr = opt_bytes(a, "hdr");
+    guarded(|| -> Option<String> {
+        let kp = KeyPair::<BBSplus<CS>>::generate(&[0x42u8; 40], None, None).unwrap();
+        let (sk, pk) = (kp.private_key().clone(), kp.public_key().clone());
+        let (c, blind) = Commitment::<BBSplus<CS>>::commit(Some(&cmsgs)).ok()?;
+        let s = BlindSignature::<BBSplus<CS>>::blind_sign(&sk, &pk, Some(&c.to_bytes()), hdr.as_deref(), Some(&msgs)).ok()?;
+        let (l, m) = (msgs.len(), cmsgs.len());
+        // every pair of disclosure choices for these small shapes
+        for mask1 in 0..(1usize << l) {
+            for mask2 in 0..(1usize << m) {
+                let i1: Vec<usize> = (0..l).filter(|i| (mask1 >> i) & 1 == 1).collect();
+                let i2: Vec<usize> = (0..m).filter(|i| (mask2 >> i) & 1 == 1).collect();
+                let p = match PoKSignature::<BBSplus<CS>>::blind_proof_gen(&pk, &s.to_bytes(), hdr.as_deref(), None, Some(&msgs), Some(&cmsgs), Some(&i1), Some(&i2), Some(&blind)) {
+                    Ok(p) => p,
+                    Err(e) => return Some(format!("blind_proof_gen failed for signer indexes {:?}, committed indexes {:?}: {}", i1, i2, e)),
+                };
+                let d1: Vec<Vec<u8>> = i1.iter().map(|i| msgs[*i].clone()).collect();
+                let d2: Vec<Vec<u8>> = i2.iter().map(|i| cmsgs[*i].clone()).collect();
+                if p.blind_proof_verify(&pk, hdr.as_deref(), None, Some(l), Some(&d1), Some(&d2), Some(&i1), Some(&i2)).is_err() {
+                    return Some(format!("honest blind proof rejected for signer indexes {:?}, committed indexes {:?}", i1, i2));
+                }
+                if !d2.is_empty() {
+                    let mut d2x = d2.clone();
+                    d2x[0].push(0x5a);
+                    if p.blind_proof_verify(&pk, hdr.as_deref(), None, Some(l), Some(&d1), Some(&d2x), Some(&i1), Some(&i2)).is_ok() {
+                        return Some("blind proof verifies with an altered disclosed committed message".into());
+                    }
+                }
+            }
+        }
+        None
+    })
+}
+
 pub fn replay_flow(a: &Args) -> (bool, String, String) {
     let kind = get(a, "kind").to_string();
     let shk = get(a, "suite") == "shk";
@@ -367,6 +407,8 @@ pub fn replay_flow(a: &Args) -> (bool, String, String) {
         ("proofflow", true) => proofflow::<Bls12381Shake256>(a),
         ("blindflow", false) => blindflow::<Bls12381Sha256>(a),
         ("blindflow", true) => blindflow::<Bls12381Shake256>(a),
+        ("blindproofflow", false) => blindproofflow::<Bls12381Sha256>(a),
+        ("blindproofflow", true) => blindproofflow::<Bls12381Shake256>(a),
         (_, _) => update::<Bls12381Shake256>(a, &rf::SHAKE),
     };
     match r {
